@@ -362,8 +362,117 @@ def allof_stream(rng, n):
     return out
 
 
+# ---- the event-level machine model (Schema/Machine.v) on the same graphs, rules stripped ----
+class NoWire(Exception):
+    pass
+
+
+def strip_node(node):
+    """the rule-free skeleton of a node: integer ranges, string lengths and patterns are dropped (the machine models kinds, references, unions, additionalProperties)"""
+    k = node[0]
+    if k == "int":
+        return ("int", None, None, node[3])
+    if k in ("strl", "strre"):
+        return ("str", False)
+    if k in ("str", "bool", "null"):
+        return node
+    if k == "ref":
+        return node
+    if k == "tref":
+        return ("ref", [node[1]], node[2])
+    if k == "orform":
+        raise NoWire("inline rule-sets need anonymous types")
+    if k == "arr":
+        return ("arr", [strip_node(x) for x in node[1]])
+    if k == "obj":
+        if any(kk.startswith("@") for kk, _, _ in node[1]):
+            raise NoWire("key shortcut")
+        return ("obj", [(kk, opt, strip_node(x)) for kk, opt, x in node[1]], node[2], node[3])
+    raise NoWire(k)
+
+
+def machine_wire(env, names, node):
+    k = node[0]
+    if k == "int":
+        return "L I %d 0" % (1 if node[3] else 0)
+    if k == "str":
+        return "L S %d 0" % (1 if node[1] else 0)
+    if k == "bool":
+        return "L B 0 0"
+    if k == "null":
+        return "L N 0 0"
+    if k == "ref":
+        return "R %d %d %s" % (1 if node[2] else 0, len(node[1]), " ".join(str(names.index(n)) for n in node[1]))
+    if k == "arr":
+        return "A 0 0 %d %s" % (len(node[1]), " ".join(machine_wire(env, names, x) for x in node[1]))
+    if k == "obj":
+        ms = members_with_inherited(env, node)
+        a = node[2]
+        ap = "-" if a is None else ("f" if a is False else ("*" if a == "any" else ({"string": "kS", "integer": "kI", "boolean": "kB", "null": "kN", "object": "o", "array": "a"}.get(a) or "t%d" % names.index(a))))
+        return "O 0 0 %s %d %s" % (ap, len(ms), " ".join("%s %d %s" % (kk.encode().hex() or "-", 0 if opt else 1, machine_wire(env, names, x)) for kk, opt, x in ms))
+    raise NoWire(k)
+
+
+def machine_stream(ctx, cases):
+    """implementation vs extracted machine model vs the set semantics, on the rule-free skeletons of the generated graphs"""
+    ml, il, meta = [], [], []
+    for names, env, root, docs in cases:
+        try:
+            env2 = {nm: strip_node(env[nm]) for nm in names}
+            root2 = strip_node(root)
+            wr = machine_wire(env2, names, root2)
+            we = " ; ".join("%d %s" % (i, machine_wire(env2, names, env2[nm])) for i, nm in enumerate(names))
+        except NoWire:
+            continue
+        schema = print_node(env2, root2)
+        types = [[nm, print_node(env2, env2[nm])] for nm in names]
+        for d in docs or []:
+            ml.append("%s ; %s ; %s" % (wr, J.doc_wire(d), we))
+            meta.append((env2, root2, d, schema, types))
+        il.append(json.dumps({"schema": schema, "types": types, "ops": [["check"]] + [["validate", J.print_doc(d)] for d in (docs or [])]}))
+    if not ml:
+        return
+    mo = vc.model_parallel("machine_spec", ml)
+    io = vc.impl_isolating(["schema"], il, 1)
+    flat = []
+    for o, (names, env, root, docs) in zip(io, [c for c in cases if _wirable(c)]):
+        r = json.loads(o)
+        flat += [(r[0], x) for x in (r[1:] if len(r) > 1 else ["-"] * len(docs or []))] if r[0] == "ok" else [(r[0], None)] * len(docs or [])
+    n = 0
+    for (env2, root2, d, schema, types), m, (chk, got) in zip(meta, mo, flat):
+        if chk != "ok" or got is None:
+            continue
+        n += 1
+        ctx.evaluations += 1
+        code = "ok" if got == "ok" else got.split("@")[0]
+        want = accepts(env2, root2, d)
+        m, spec, closed = m.split(" ")
+        if (spec == "T") != want and len(ctx.violations) < 40:
+            ctx.report("machinery: the Coq denotation maccepts says %s, the python transcription of the statement says %s; schema %r document %s" % (spec, want, schema[:80], J.print_doc(d)[:60]),
+                       "c03spec:" + schema + J.doc_wire(d), {"schema": schema, "types": types, "document": J.print_doc(d)}, no_input=True)
+        info = {"schema": schema, "types": types, "document": J.print_doc(d), "implementation": got, "machine_model": m, "set_semantics": "accept" if want else "reject"}
+        if (code == "ok") != want and len(ctx.violations) < 40:
+            ctx.report("Validate(%s) says %s, the set semantics of the types say %s; schema %r" % (J.print_doc(d)[:80], got, "accept" if want else "reject", schema[:80]), "c03m:" + schema + J.doc_wire(d), info, case=info)
+        elif m != code and len(ctx.violations) < 40:
+            ctx.report("Validate(%s) says %s, the event-level machine model says %s; schema %r types %r" % (J.print_doc(d)[:80], got, m, schema[:80], [t[1][:40] for t in types][:4]),
+                       "c03machine:" + schema + J.doc_wire(d), info, case=info, no_input=True)
+    ctx.extra["machine_model_cases"] = n
+
+
+def _wirable(c):
+    names, env, root, docs = c
+    try:
+        env2 = {nm: strip_node(env[nm]) for nm in names}
+        machine_wire(env2, names, strip_node(root))
+        for nm in names:
+            machine_wire(env2, names, env2[nm])
+        return True
+    except NoWire:
+        return False
+
+
 def run(ctx):
-    st = vc.prepare(ctx, need_model=False)
+    st = vc.prepare(ctx)
     if not st["impl"]:
         ctx.report("harness failed to build: " + json.dumps(st["logs"])[:1500], "build", st["logs"], no_input=True)
         return
@@ -468,6 +577,8 @@ def run(ctx):
                 info = {"schema": c["schema"], "types": c["types"], "document": J.print_doc(d), "implementation": got, "expected": "accept" if want else "reject"}
                 ctx.report("Validate(%s) says %s, the set semantics of the types say %s; schema %r types %r" % (J.print_doc(d)[:80], got, "accept" if want else "reject", c["schema"][:80],
                                                                                                                [t[1][:50] for t in c["types"]][:4]), "c03:" + l + J.doc_wire(d), info, case=info)
+    if st.get("model"):
+        machine_stream(ctx, cases)
     ctx.extra["graphs"] = len(cases)
     ctx.extra["accepted_by_check"] = nchk
     ctx.samples.append({"schema": json.loads(lines[1])["schema"], "types": json.loads(lines[1])["types"], "documents": json.loads(lines[1])["ops"][1:3]})
